@@ -18,12 +18,14 @@ def check(ctx):
     ctx.doc('R2', "stop time = event time + 1 where the event time is the last frame before the change (C03.R2); "
                   "'start time' is that event time")
     ctx.doc('R3', 'the origin of every reported jump is a real site: only departures guarded by start site != NOSITE feed it')
+    ctx.doc('R5', 'every variable that carries scanner state from one event to the next is reset when the scan moves to the next atom')
     ctx.doc('R4', 'the minimal residence occurs only as the lower bound of an elapsed-time test that admits a jump, so '
                   'raising it can only remove jumps')
     ctx.floor('R1', 4)
     ctx.floor('R2', 2)
     ctx.floor('R3', 2)
     ctx.floor('R4', 1)
+    ctx.floor('R5', 2, 'fromevent, candidate_jump')
     it = ctx.pipeline()
     fi = ctx.fn(G2J)
     inside = lambda f: f.qualname == G2J
@@ -77,6 +79,31 @@ def check(ctx):
                 bad = True
         ctx.ob('R3', fi, e['node'], not bad, 'origin is a real site' if not bad else
                "a reported jump can carry the 'no site' marker as origin: departures are not restricted to real sites")
+    # ---- R5 per-atom scanner state
+    fors = [n_ for n_ in walk_no_nested(fi.node) if isinstance(n_, ast.For)]
+    nested = []
+    for o_ in fors:
+        for i_ in o_.body:
+            if isinstance(i_, ast.For) and isinstance(i_.iter, ast.Call) and isinstance(i_.iter.func, ast.Attribute) and i_.iter.func.attr == 'iterrows':
+                nested.append((o_, i_))
+    if not nested:
+        ctx.ob('R5', fi, 'per-atom event scan', None, 'nested scan (atoms, then events of one atom) not recognised')
+    for o_, i_ in nested:
+        stores = {n_.id for n_ in ast.walk(i_) if isinstance(n_, ast.Name) and isinstance(n_.ctx, ast.Store)}
+        target_names = {n_.id for n_ in ast.walk(i_.target) if isinstance(n_, ast.Name)}
+        loads = {n_.id for s_ in i_.body for n_ in ast.walk(s_) if isinstance(n_, ast.Name) and isinstance(n_.ctx, ast.Load)}
+        carried = sorted((stores - target_names) & loads)
+        pos = o_.body.index(i_)
+        reset = set()
+        for s_ in o_.body[:pos]:
+            for n_ in ast.walk(s_):
+                if isinstance(n_, ast.Name) and isinstance(n_.ctx, ast.Store):
+                    reset.add(n_.id)
+        for name in carried:
+            ok = name in reset
+            ctx.ob('R5', fi, f'scanner state `{name}`', ok, 'reset for every atom before its events are scanned' if ok else
+                   f'`{name}` carries state from one event to the next but is not reset when the scan moves on to the next atom: a pending '
+                   f'departure of one atom is completed by an arrival of the following atom (phantom jump, depends on the atom order)')
     # ---- R4
     prm = 'minimal_residence'
     uses = [n_ for n_ in walk_no_nested(fi.node) if isinstance(n_, ast.Name) and n_.id == prm and isinstance(n_.ctx, ast.Load)]
